@@ -210,7 +210,7 @@ fn explore_tree(tree: &Tree, inst: &str, sc: &uni::Scratch, shard: usize, n: usi
 	let is_lift = |i: usize| tree.blocks[i].name.starts_with('p');
 	let prelude: Vec<Ev> = (0..tree.blocks.len()).filter(|i| is_lift(*i)).map(Ev::B).collect();
 	let mut ex = Explorer::with_prelude(tree, sc, Options::NONE, inst, &prelude);
-	ex.live_check = 2;
+	ex.live_check = if reopen { 2 } else { 1 }; // thorough (= with reopen probes): probes offered to the long-lived node too
 	ex.shard = (shard, n);
 	// valid blocks form the histories; reference-invalid blocks are probes at every state
 	let evs: Vec<Ev> = (0..tree.blocks.len()).filter(|i| !is_lift(*i) && tree.valid(*i).is_ok()).map(Ev::B).collect();
@@ -270,7 +270,7 @@ fn compaction(tier: Tier, shard: usize, n: usize) -> Report {
 		let prelude = crate::c09::parse_events(&tree, &["*main"]);
 		let mut inv = Inv02c { inst: "long".into() };
 		let mut ex = Explorer::with_prelude(&tree, scr, Options::NONE, "long", &prelude);
-		ex.live_check = 2;
+		ex.live_check = tier.pick(1, 2);
 		ex.shard = (shard, n);
 		let idx = |name: &str| tree.blocks.iter().position(|b| b.name == name).unwrap();
 		let mut evs: Vec<Ev> = vec![Ev::B(idx("x91")), Ev::B(idx("y90")), Ev::B(idx("y91")), Ev::B(idx("y92")), Ev::Compact, Ev::Reopen];
